@@ -53,6 +53,8 @@ def truthy(I, v):
         return z3.Exists([x], z3.Select(v.dom, x))
     if isinstance(v, (VFunc, VClass, VCons, VExc)):
         return z3.BoolVal(True)
+    if isinstance(v, VModel):
+        return v.truthy(I)
     raise Unsupported('truthiness of %r' % (v,))
 
 
@@ -138,6 +140,8 @@ def contains(I, item, coll):
         if isinstance(item, VStr) and z3.is_string_value(item.t):
             return z3.BoolVal(item.t.as_string() in coll.d)
         raise Unsupported('symbolic key in kwargs')
+    if isinstance(coll, VModel):
+        return coll.contains(I, item)
     if isinstance(coll, VList):
         i = core.fresh('mi', z3.IntSort())
         comps = coll.ek.unwrap(item)
